@@ -262,7 +262,11 @@ def visibleTextAux (p : Policy) : Nat → List Bytes → List Token → Bytes
     element in the skip set, nothing that turns the re-read text raw -/
 def inClassC08 (p : Policy) (inp : Bytes) : Bool :=
   let ti := tokenize inp
-  !p.allowUnsafe && !p.addSpaces && wellNested ti &&
+  -- AllowUnsafe only matters when script / style are allowed or their content is kept: otherwise
+  -- they are ordinary disallowed skip-content elements
+  (!p.allowUnsafe || [b!"script", b!"style"].all fun n =>
+      !allowsElement p n && p.setOfElementsToSkipContent.contains n) &&
+  !p.addSpaces && wellNested ti &&
   ti.all (fun t => t.tt != .selfClosing) &&
   (voidElements.all fun v => !p.setOfElementsToSkipContent.contains v) &&
   ti.all fun t => !(isTag t && isRawTagName t.data && allowsElement p t.data)
